@@ -100,6 +100,15 @@ FAMILIES["rm"] = {
     "scenarios": [scen("WitReplayRm", "wit_rm.ndjson")],
 }
 
+FAMILIES["ro"] = {
+    # Core.tla in read-only metadata mode: acks, saves by two savers, final save of Close(), crash / restart; nothing is written, loads identical
+    "driver": "core", "monitor": "MonTrace",
+    "exhaustive": {"quick": [mc("MCRoQ", "2 vBuckets, metadata.readOnly, 1 saver, 1 save, 1 ack, 1 server event per vBucket, Close(), 1 crash")],
+                   "thorough": [mc("MCRo", "2 vBuckets, metadata.readOnly, 1 saver, <=2 saves, 1 ack, Close(), 1 crash", 5000)]},
+    "simulate": {"quick": [sim("SimRo", 40, 44)], "thorough": [sim("SimRo", 600, 48)]},
+    "scenarios": [],
+}
+
 PROPS = {
     "C07": {"families": ["rm"]},
     "C16": {"families": ["metric"]},
@@ -109,7 +118,7 @@ PROPS = {
     "C19": {"custom": "funcheck"},
     "C18": {"custom": "funcheck"},
     "C20": {"custom": "funcheck"},
-    "C02": {"families": ["mode", "fault", "data"]},
+    "C02": {"families": ["mode", "fault", "data", "ro"]},
     "C01": {"families": ["data", "gen"]},
     "C03": {"families": ["gen", "life"]},
     "C04": {"families": ["data", "gen", "life"]},
